@@ -15,7 +15,7 @@ RULE = (
     "least one name with >=2 manifest entries"
 )
 BOUNDS = {
-    "quick": "2 names x 2 source files x 3 contents, 13 operations, all histories to depth 5 (BFS with canonical-state de-duplication); plus all histories to depth 4 over 7 operations for a source file named <sha256 of its bytes>.csv and for a source file without extension",
+    "quick": "2 names x 2 source files x 4 contents (two of the same length), 15 operations, all histories to depth 5 (BFS with canonical-state de-duplication); plus all histories to depth 4 over 7 operations for a source file named <sha256 of its bytes>.csv and for a source file without extension",
     "thorough": "same alphabet, depth 7; the two special source files to depth 5",
 }
 DEPTH = {"quick": 5, "thorough": 7}
@@ -28,7 +28,7 @@ ASSUMPTIONS = [
     "source files start with s1.csv=A, s2.txt=B (two different extensions), <sha256(A)>.csv=A, s4=B so that every add is enabled; remove of an unregistered name is disabled",
 ]
 
-CONTENTS = {"A": "a,b\n1,2\n", "B": "a,b\n3,4\n5,6\n", "C": "x\n"}
+CONTENTS = {"A": "a,b\n1,2\n", "B": "a,b\n3,4\n5,6\n", "C": "x\n", "D": "a,b\n1,3\n"}  # D: the same length as A, one digit changed
 SRCS = ["s1.csv", "s2.txt"]
 NAMES = ["n1", "n2"]
 # two more source files, explored in their own (smaller) operation alphabets: one whose base name already IS the sha256 of its
